@@ -232,28 +232,23 @@ theorem reverse_twice_restores (pts : List Point) (h : ReversibleShape pts) :
     reversePoints (reversePoints pts) = pts :=
   reversePoints_reversePoints pts h
 
-/-- The full statement about area: reversing any reversible contour that draws without error negates
-the signed area AreaPen computes (so `area` is kept and `clockwise` flips). -/
-def ReverseNegatesArea (pts : List Point) : Prop :=
-  ReversibleShape pts → drawErr pts = none → freshArea (reversePoints pts) = - freshArea pts
+/-- Reversing negates the signed area AreaPen computes — so `area` is kept and `clockwise` flips —
+and the reversed contour is again a valid contour that draws without error.  For every valid
+contour: closed (lines, cubics, quadratics with implied points, starting anywhere, also on an
+off-curve point), made of off-curve points only, open (area of the implicitly closed path), one
+point, empty. -/
+theorem reverse_negates_area (pts : List Point) (hshape : ReversibleShape pts) (herr : drawErr pts = none) :
+    freshArea (reversePoints pts) = - freshArea pts ∧ ReversibleShape (reversePoints pts) ∧
+    drawErr (reversePoints pts) = none :=
+  reverse_area_all pts hshape herr
 
-/-- Proved part: closed contours (no `move`) with at least one on-curve point and at least two
-points — any mix of lines, cubics and quadratics with implied points, starting anywhere, also on an
-off-curve point.  The reversed contour still draws without error.
-Not proved here (validated against the implementation by the harness only): open contours, and
-closed contours made of off-curve points only. -/
-theorem reverse_negates_area_partial (pts : List Point) (hm : noMove pts = true) (herr : drawErr pts = none)
-    (hon : hasOn pts = true) (h2 : 2 ≤ pts.length) :
-    freshArea (reversePoints pts) = - freshArea pts ∧ drawErr (reversePoints pts) = none :=
-  reverse_area pts hm herr hon h2
-
-/-- Hence reversing flips the direction (`clockwise` = signed area < 0) of every such contour of
-non-zero area, and keeps `area` = |signed area|. -/
-theorem reverse_flips_direction_partial (pts : List Point) (hm : noMove pts = true) (herr : drawErr pts = none)
-    (hon : hasOn pts = true) (h2 : 2 ≤ pts.length) (hne : freshArea pts ≠ 0) :
+/-- Hence reversing flips the direction (`clockwise` = signed area < 0) of every contour of non-zero
+area, and keeps `area` = |signed area|. -/
+theorem reverse_flips_direction (pts : List Point) (hshape : ReversibleShape pts) (herr : drawErr pts = none)
+    (hne : freshArea pts ≠ 0) :
     (freshArea (reversePoints pts) < 0 ↔ ¬ freshArea pts < 0) ∧
     absR (freshArea (reversePoints pts)) = absR (freshArea pts) := by
-  rw [(reverse_area pts hm herr hon h2).1]
+  rw [(reverse_area_all pts hshape herr).1]
   constructor
   · constructor
     · intro h h'; linarith
@@ -265,15 +260,11 @@ theorem reverse_flips_direction_partial (pts : List Point) (hm : noMove pts = tr
   · unfold absR
     split_ifs <;> linarith
 
-/-- Reversing keeps `controlPointBounds` — proved, like the area law, for closed contours with an
-on-curve point (the other shapes: validated by the harness only). -/
-theorem reverse_keeps_control_bounds_partial (pts : List Point) (hm : noMove pts = true) (herr : drawErr pts = none)
-    (hon : hasOn pts = true) (h2 : 2 ≤ pts.length) (hclosed : isOpen pts = false) :
+/-- Reversing keeps `controlPointBounds`. -/
+theorem reverse_keeps_control_bounds (pts : List Point) (hshape : ReversibleShape pts) (herr : drawErr pts = none) :
     freshCpb (reversePoints pts) = freshCpb pts := by
-  have hshape : ReversibleShape pts := Or.inl ⟨hclosed, hm⟩
-  have hshape' : ReversibleShape (reversePoints pts) :=
-    Or.inl ⟨by rw [reversePoints_isOpen pts hshape]; exact hclosed, noMove_reversePoints pts hm⟩
-  rw [freshCpb_eq_boxOfPts _ hshape' (reverse_area pts hm herr hon h2).2, freshCpb_eq_boxOfPts _ hshape herr]
+  obtain ⟨_, hshape', herr'⟩ := reverse_area_all pts hshape herr
+  rw [freshCpb_eq_boxOfPts _ hshape' herr', freshCpb_eq_boxOfPts _ hshape herr]
   apply boxOfPts_perm
   have := (reversePoints_perm pts hshape).map (fun c => c.1)
   simpa [Point.core, List.map_map, Function.comp_def] using this
@@ -288,7 +279,7 @@ example : ReversibleShape Ex.closed := by decide
 example : ReversibleShape Ex.opened := by decide
 example : reversePoints Ex.closed ≠ Ex.closed := by decide +kernel
 example : reversePoints Ex.opened ≠ Ex.opened := by decide +kernel
-example : hasOn Ex.closed = true ∧ noMove Ex.closed = true ∧ freshArea Ex.closed ≠ 0 := by decide +kernel
+example : drawErr Ex.opened = none ∧ freshArea Ex.closed ≠ 0 ∧ freshArea Ex.opened ≠ 0 := by decide +kernel
 example : freshArea (reversePoints Ex.closed) = -184555 / 12 := by decide +kernel
 
 /-! ## 5. Changing the start point -/
